@@ -387,6 +387,13 @@ def main(argv):
             cases, rc = replay_lines(open(cf).read().splitlines(), prefix)
             for c in cases:
                 c.origin = cf
+                # a recorded history may not be replayable to its end (the buffer index, the map iteration order and the
+                # sketch seeds differ from run to run, so a recorded `consumer`/`resume`/... can find nothing to do):
+                # compare the replayable prefix only
+                for i, s_ in enumerate(c.steps):
+                    if s_.out.startswith("disabled"):
+                        del c.steps[i:]
+                        break
             all_cases += cases
         with ThreadPoolExecutor(max_workers=16) as ex:
             results = list(ex.map(run_shard, jobs))
